@@ -29,12 +29,14 @@ func String(dest *string) ParserFunc {
 }
 
 // Enum parses a positional argument as a string enum.
+// The value is matched regardless of letter case
+// and stored in lower case.
 func Enum(dest *string, allowed ...string) ParserFunc {
 	return func(args [][]byte) (bool, [][]byte, error) {
 		if len(args) == 0 {
 			return false, args, nil
 		}
-		val := string(args[0])
+		val := strings.ToLower(string(args[0]))
 		if !slices.Contains(allowed, val) {
 			return true, args, ErrSyntaxError
 		}
